@@ -70,36 +70,52 @@ def atoms(h):
     return out
 
 
-def covering_sample(hs, count, rng, precs=("d", "s", "z", "c"), scales=(None,)):
-    """greedy cover: (history, precision[, scaling of the generated matrix]) chosen so that every per-call feature is exercised in
-    every precision (and, for the calls whose outcome depends on it, with every kind of bad scaling: none / row / col / both, which
-    decides the equed outcome) as evenly as the budget allows -- a defect in one precision's copy of one driver path, or in one
-    equed branch of it, needs exactly one such combination"""
+RHS_SHAPES = ("one", "multi", "multi_pad", "zero")
+
+
+def covering_sample(hs, count, rng, precs=("d", "s", "z", "c"), scales=(None,), shapes=(None,)):
+    """greedy cover: (history, precision[, scaling of the generated matrix][, shape of the right-hand sides]) chosen so that every
+    per-call feature is exercised in every precision -- and, where the outcome depends on it, with every kind of bad scaling
+    (none / row / col / both / colonly / rowonly: decides the equed outcome) and every right-hand-side shape (one column, several
+    tight, several with padded leading dimensions, none) -- as evenly as the budget allows: a defect in one precision's copy of one
+    driver path, in one equed branch of it, or in one stride of a solve needs exactly one such combination"""
     cov = {}
     pool = list(hs)
     rng.shuffle(pool)
     at = [atoms(h) for h in pool]
     used = set()
     out = []
+
+    def gain(keys, p):
+        return sum(1.0 / (1 + cov.get((x, p), 0)) ** 2 for x in keys)
     for _ in range(min(count, len(pool))):
         best, bs = None, -1.0
         for p in rng.sample(list(precs), len(precs)):
-            for sc in rng.sample(list(scales), len(scales)):
-                for i, a in enumerate(at):
-                    if i in used or not a:
-                        continue
-                    aa = a if sc is None else a | {(x[0], "scale", sc, t[2] != "N") for x in a if x[1] == "gssvx" and x[2] in ("EQUILIBRATE", "FACTORED")
-                                                      for t in a if t[1] == "trans"}
-                    score = sum(1.0 / (1 + cov.get((x, p), 0)) ** 2 for x in aa)
-                    if score > bs:
-                        best, bs = (i, p, sc, aa), score
+            for i, a in enumerate(at):
+                if i in used or not a:
+                    continue
+                sc = gain(a, p)
+                if sc > bs:
+                    best, bs = (i, p), sc
         if best is None:
             break
-        i, p, sc, aa = best
+        i, p = best
+        a = at[i]
         used.add(i)
-        for x in aa:
+        keys = set(a)
+        pick_sc = pick_sh = None
+        if scales != (None,):
+            cand = {sc: {(x[0], "scale", sc, t[2] != "N") for x in a if x[1] == "gssvx" and x[2] in ("EQUILIBRATE", "FACTORED") for t in a if t[1] == "trans"}
+                    for sc in scales}
+            pick_sc = max(rng.sample(list(scales), len(scales)), key=lambda sc: gain(cand[sc], p))
+            keys |= cand[pick_sc]
+        if shapes != (None,):
+            cand = {sh: {(x[0], x[1], "rhs", sh) for x in a if x[1] in ("gssv", "gssvx")} for sh in shapes}
+            pick_sh = max(rng.sample(list(shapes), len(shapes)), key=lambda sh: gain(cand[sh], p))
+            keys |= cand[pick_sh]
+        for x in keys:
             cov[(x, p)] = cov.get((x, p), 0) + 1
-        out.append((pool[i], p) if scales == (None,) else (pool[i], p, sc))
+        out.append((pool[i], p) if (scales == (None,) and shapes == (None,)) else (pool[i], p, pick_sc, pick_sh))
     return out
 
 
@@ -116,12 +132,13 @@ def run_histories(ck, alphabet, depth, count, rng, precs=("d",), threads=(1, 2, 
         return
     kw = dict(script_kw or {})
     use_scales = kw.get("scale_for_equil", True) and not kw.get("symmetric")
-    sample = covering_sample(hs, count, rng, precs, scales=("none", "row", "col", "both", "colonly", "rowonly") if use_scales else (None,))
+    sample = covering_sample(hs, count, rng, precs, scales=("none", "row", "col", "both", "colonly", "rowonly") if use_scales else ("none",), shapes=RHS_SHAPES)
     items = []
     for i, smp in enumerate(sample):
         h, prec = smp[0], smp[1]
         if use_scales:
             kw["scale"] = smp[2]
+        kw["rhs"] = smp[3]
         if prec in ("c", "z") and (ck.pid != "C07" or (i // len(precs)) % 3 != 0):
             # complex CONJ is a recorded known finding (F16): C07 keeps a few such histories to re-confirm it,
             # and let the others exercise the transposed solve instead so that the rest of the history is validated
